@@ -30,7 +30,11 @@ def exclude(ctx, ob):
     if bs is not None:
         m, caps, _ = pike.match(bs, t)
         # known: ProcessorBlockStartRegex is not anchored at the end: text after the first argument is dropped
-        out['C10-block-start-tail-dropped'] = b_and(m, i_cmp('<', caps[1], t.ln, W, True))
+        # (signature: the dropped tail is separated from the argument by white space - the pattern's `(\S+)?` takes every
+        #  non-blank byte that follows, so anything else that gets lost is a different defect)
+        nxt = s_byte(t, caps[1])
+        ws = b_or(*[i_cmp('==', nxt, c, 8, False) for c in (32, 9, 12, 13)])
+        out['C10-block-start-tail-dropped'] = b_and(m, i_cmp('<', caps[1], t.ln, W, True), ws)
     # known: `--` with an empty replacement list is dropped (the formatter rebuilds the directive from its groups)
     tr = intrinsics.trim_right_set(t, [32, 9])
     dash = b_and(i_cmp('>=', tr.ln, 2, W, True), s_has_suffix(tr, s_const('--')))
@@ -49,6 +53,10 @@ def exclude(ctx, ob):
     return out
 
 
+def exclude_meaning(ctx, ob):
+    return {}
+
+
 def main(tier):
     ck = propcheck.Check('C10', tier)
     N = 16 if tier == 'quick' else 22
@@ -57,5 +65,14 @@ def main(tier):
     jobs = [('cmd.VerifC10LineContent', dict(fixlen={'line': L}, params={'indent': d}, unwind=N + 12, exclude=exclude, timeout_ms=120000, terminal_obligations=()))
             for L in range(0, N + 1) for d in (0, 1)]
     rs, viol = ck.run('line-content', jobs, bounds={'line_len': '0..%d' % N, 'indent': [0, 1]})
+    ck.triage(viol)
+    # meaning: ANY ASCII line (control bytes included): same classification by the compiler before and after, entries byte-identical
+    M = 10 if tier == 'quick' else 14
+    jobs = [('cmd.VerifC10LineMeaning', dict(fixlen={'line': L}, params={'indent': d}, unwind=M + 16, exclude=exclude_meaning, timeout_ms=120000, terminal_obligations=(), hooks={'fixed_map_order': True}))
+            for L in range(0, M + 1) for d in (0, 1)]
+    rs, viol = ck.run('line-meaning', jobs, job_timeout=420 if tier == 'quick' else 2400, bounds={'line_len': '0..%d' % M, 'alphabet': 'ASCII 0x01..0x7f without newline', 'indent': [0, 1]})
+    ck.triage(viol)
+    jobs = [('cmd.VerifC10RejectedLine', dict(fixlen={'line': L}, unwind=60, timeout_ms=120000, terminal_obligations=(), hooks={'fixed_map_order': True})) for L in range(3, 7)]
+    rs, viol = ck.run('rejected-line', jobs, bounds={'line_len': '3..6 over {# ! < > blank a}'})
     ck.triage(viol)
     return ck.finish()
